@@ -306,6 +306,71 @@ mod verif_driver_assets {
         println!("VERIF-CASES fn=sub n={n}");
     }
 
+    // C15 (expression level, every entry point): `+` and `-` written in a template reach the algebra through
+    // `impl Arithmetic for Expression` (and `BuiltInOp::Add/Sub` under `reduce`), not only through the list-level operator:
+    // all three paths give the class-by-class sum / difference - in particular for two single-entry values whose classes
+    // share a policy or a name but are different classes - and `+` commutes.
+    // BOUND: 6 classes (coin, a name-only asset, two names under one policy, one name under two policies) x amounts
+    // {-2, 1, 3}, every ordered pair of single-entry values, plus pairs of two-entry values.
+    fn quiet<T>(f: impl FnOnce() -> T) -> Result<T, String> {
+        let prev = std::panic::take_hook();
+        std::panic::set_hook(Box::new(|_| {}));
+        let r = catch_unwind(AssertUnwindSafe(f));
+        std::panic::set_hook(prev);
+        r.map_err(|e| if let Some(s) = e.downcast_ref::<String>() { s.clone() } else if let Some(s) = e.downcast_ref::<&str>() { s.to_string() } else { "panic".to_string() })
+    }
+
+    #[test]
+    fn expression_operators_agree_with_the_algebra() {
+        use crate::model::v1beta0::{AssetExpr, BuiltInOp, Expression};
+        use crate::reduce::{Apply, Arithmetic};
+        use std::collections::BTreeMap;
+        let mut n = 0;
+        let p = vec![7u8; 28];
+        let q = vec![9u8; 28];
+        let cls: Vec<(&str, AssetClass)> = vec![
+            ("coin", AssetClass::Naked), ("name-only t", AssetClass::Named(b"t".to_vec())),
+            ("P.gold", AssetClass::Defined(p.clone(), b"gold".to_vec())), ("P.silver", AssetClass::Defined(p.clone(), b"silver".to_vec())),
+            ("Q.gold", AssetClass::Defined(q.clone(), b"gold".to_vec())), ("Q.t", AssetClass::Defined(q.clone(), b"t".to_vec())),
+        ];
+        let single = |c: &AssetClass, x: i128| -> CanonicalAssets { CanonicalAssets::from_class_and_amount(c.clone(), x) };
+        let value_of = |e: &Expression| -> Option<BTreeMap<String, i128>> {
+            match e {
+                Expression::Assets(l) => { let v = CanonicalAssets::from(l.clone()); Some(cls.iter().map(|(nm, c)| (nm.to_string(), v.asset_amount(c).unwrap_or(0))).filter(|(_, a)| *a != 0).collect()) }
+                _ => None,
+            }
+        };
+        let mut operands: Vec<(String, Vec<(usize, i128)>)> = vec![];
+        for (i, (nm, _)) in cls.iter().enumerate() { for a in [-2i128, 1, 3] { operands.push((format!("{{{nm}: {a}}}"), vec![(i, a)])); } }
+        operands.push(("{P.gold: 1, P.silver: 2}".into(), vec![(2, 1), (3, 2)]));
+        operands.push(("{coin: 5, Q.gold: 1}".into(), vec![(0, 5), (4, 1)]));
+        let build = |spec: &Vec<(usize, i128)>| -> Vec<AssetExpr> { spec.iter().fold(CanonicalAssets::empty(), |acc, (i, a)| acc + single(&cls[*i].1, *a)).into() };
+        for (dl, l) in &operands { for (dr, r) in &operands {
+            n += 1;
+            for (opname, sign) in [("add", 1i128), ("sub", -1)] {
+                let mut want: BTreeMap<String, i128> = BTreeMap::new();
+                for (i, a) in l { *want.entry(cls[*i].0.to_string()).or_default() += a; }
+                for (i, a) in r { *want.entry(cls[*i].0.to_string()).or_default() += sign * a; }
+                want.retain(|_, a| *a != 0);
+                let (lv, rv) = (build(l), build(r));
+                let paths: Vec<(&str, Result<Result<Expression, String>, String>)> = vec![
+                    ("the list-level operator", { let (a, b) = (lv.clone(), rv.clone()); quiet(move || if sign == 1 { Arithmetic::add(a, Expression::Assets(b)) } else { Arithmetic::sub(a, Expression::Assets(b)) }.map_err(|e| e.to_string())) }),
+                    ("impl Arithmetic for Expression", { let (a, b) = (lv.clone(), rv.clone()); quiet(move || if sign == 1 { Arithmetic::add(Expression::Assets(a), Expression::Assets(b)) } else { Arithmetic::sub(Expression::Assets(a), Expression::Assets(b)) }.map_err(|e| e.to_string())) }),
+                    ("reduce of the built-in operation", { let (a, b) = (lv.clone(), rv.clone()); quiet(move || { let op = if sign == 1 { BuiltInOp::Add(Expression::Assets(a), Expression::Assets(b)) } else { BuiltInOp::Sub(Expression::Assets(a), Expression::Assets(b)) }; Expression::EvalBuiltIn(Box::new(op)).reduce().map_err(|e| e.to_string()) }) }),
+                ];
+                for (path, got) in paths {
+                    match got {
+                        Err(pn) => witness(&format!("c15_assets/Arithmetic::{opname}#reachable-panic"), opname, format!("{dl} {opname} {dr} via {path}"), format!("panic:{}", pn.chars().take(80).collect::<String>()), "no panic"),
+                        Ok(Ok(e)) => { let v = value_of(&e); if v.as_ref() != Some(&want) { witness(&format!("c15_assets/Arithmetic::{opname}#postcondition"), opname, format!("{dl} {opname} {dr} via {path} class=expression-level-operator"), format!("{v:?}"), &format!("{want:?} (class by class)")); } }
+                        Ok(Err(e)) => witness(&format!("c15_assets/Arithmetic::{opname}#postcondition"), opname, format!("{dl} {opname} {dr} via {path} class=expression-level-operator"), format!("Err({})", e.chars().take(80).collect::<String>()), &format!("{want:?} (class by class)")),
+                    }
+                }
+            }
+        } }
+        println!("VERIF-CASES fn=add n={n}");
+        println!("VERIF-CASES fn=sub n={n}");
+    }
+
     // C14 / C02: arithmetic of the asset algebra on extreme amounts must not panic (and must not wrap)
     #[test]
     fn extreme_amounts_do_not_panic() {
